@@ -12,7 +12,7 @@ def parseWs (m sw : String) : WSpec :=
 def parseGroup (s : String) : Option String := if s == "-" then none else some s
 
 def parseItems (s : String) : List Item :=
-  if s == "-" then [] else s.toList.map fun c => { bad := c == '1' }
+  if s == "-" then [] else s.toList.map fun c => { bad := c == '1', raises := c == '2' }
 
 def parseNats (l : List String) : List Nat := l.filterMap String.toNat?
 def parseInts (l : List String) : List Int := l.filterMap String.toInt?
